@@ -35,4 +35,22 @@ def ValueUses (v : PV) (o : Opt) : Prop :=
   (o = .plurals ∧ ∃ n, (n, CountTy.plural) ∈ Occ.occCounts v) ∨
   ∃ n f, (n, f) ∈ Occ.occVars v ∧ fmtOpt f = some o
 
+mutual
+/-- the values of a locale at any subkey depth -/
+def leafValues : PV → List PV
+  | .subkeys (some (.mk _ _ keys _ _)) => leafValuesK keys
+  | .subkeys none => []
+  | .dflt => [.dflt]
+  | .fk f => [.fk f]
+  | .ranges ck t bs => [.ranges ck t bs]
+  | .lit l => [.lit l]
+  | .var k f => [.var k f]
+  | .comp k i => [.comp k i]
+  | .bloc items => [.bloc items]
+  | .plurals r ck o fs => [.plurals r ck o fs]
+def leafValuesK : List (Str × PV) → List PV
+  | [] => []
+  | (_, v) :: rest => leafValues v ++ leafValuesK rest
+end
+
 end I18nVerif.Datakey.Spec
